@@ -146,6 +146,11 @@ const (
 	kChan   kind = "ChannelSink"
 	// two distinct FileSink nodes configured with the same Path and FileName (no rotation): not part of the random catalogue
 	kFileSame kind = "FileSink(same file)"
+	// FileSinks that rotate every one to three events (MaxBytes 150): the active file keeps its plain name and is renamed on
+	// rotation (TimestampOnlyOnRotate), or every file is stamped when created; nothing pruned (MaxFiles 0 / far above the count)
+	kFileRotTS      kind = "FileSink(rotating, stamp on rotate)"
+	kFileRotTSKeep  kind = "FileSink(rotating, stamp on rotate, MaxFiles 100000)"
+	kFileRotStamped kind = "FileSink(rotating, stamped)"
 )
 
 var filterKinds = []kind{kFilter, kEnc, kGated}
@@ -199,7 +204,7 @@ func signer(tag string) cloudevents.Signer {
 // instance name -> node (created once, shared by every pipeline that names it)
 func (w *world) node(k kind, inst int, fmtFor string) (el.NodeID, el.Node) {
 	name := fmt.Sprintf("%s#%d", k, inst)
-	if k == kFile || k == kWriter || k == kFileSame {
+	if k == kFile || k == kWriter || k == kFileSame || k == kFileRotTS || k == kFileRotTSKeep || k == kFileRotStamped {
 		name += "/" + fmtFor
 	}
 	if n, ok := w.nodes[name]; ok {
@@ -233,6 +238,14 @@ func (w *world) node(k kind, inst int, fmtFor string) (el.NodeID, el.Node) {
 		n = f
 	case kFileSame:
 		f := &el.FileSink{Path: filepath.Join(w.dir, "same-file"), FileName: "ev.log", Format: fmtFor}
+		w.files = append(w.files, f)
+		n = f
+	case kFileRotTS, kFileRotTSKeep, kFileRotStamped:
+		f := &el.FileSink{Path: filepath.Join(w.dir, fmt.Sprintf("rot%d-%d", len(w.files), inst)), FileName: "ev.log", Format: fmtFor, MaxBytes: 150,
+			TimestampOnlyOnRotate: k != kFileRotStamped}
+		if k == kFileRotTSKeep {
+			f.MaxFiles = 100000
+		}
 		w.files = append(w.files, f)
 		n = f
 	case kWriter:
@@ -293,7 +306,7 @@ func (w *world) addPipeline(id string, ps pipeSpec) {
 			}
 		case kJSON, kJSONFF, kCEJ, kCET:
 			seenFmt = true
-		case kFile, kFileSame, kWriter:
+		case kFile, kFileSame, kWriter, kFileRotTS, kFileRotTSKeep, kFileRotStamped:
 			w.sinkFeeds[string(nid)] = append(w.sinkFeeds[string(nid)], encAhead)
 			if f, ok := n.(*el.FileSink); ok {
 				w.fileSinks[string(nid)] = f
@@ -600,7 +613,7 @@ func runScenario(sc scenario, seed uint64, dir string) result {
 			}
 		}
 		if missing+dup > 0 {
-			res.Integrity = append(res.Integrity, fmt.Sprintf("FileSink(same file): of %d acknowledged events %d are missing from the file and %d are in it more than once (e.g. event %d)", len(w.acked), missing, dup, ex))
+			res.Integrity = append(res.Integrity, fmt.Sprintf("FileSink: of %d acknowledged events %d are missing from the files of the sink's directory and %d are in them more than once (e.g. event %d)", len(w.acked), missing, dup, ex))
 		}
 	}
 	res.Sent, res.SendErrs, res.ChanGot, res.Panics = w.sent, w.sendErrs, w.chanGot, w.panics
@@ -643,6 +656,14 @@ func focused(per int) []scenario {
 		// two distinct FileSink nodes on the same file: sequential alternation with Reopen in between, then concurrent senders
 		{Name: "filesink-same-file", Senders: 4, PerSend: per / 2, Alternate: 40, ExactOnce: true, Controls: []string{"broker-reopen"},
 			Pipes: []pipeSpec{{Type: "t1", Kinds: k(kJSON, kFileSame), Insts: []int{0, 0}}, {Type: "t2", Kinds: k(kFilter, kJSON, kFileSame), Insts: []int{0, 0, 1}}}},
+		// FileSinks rotating every one to three events under 6..8 senders: every acknowledged event must be in exactly one of the
+		// files of the directory (active + rotated), whole
+		{Name: "filesink-rotate-on-rotate-stamp", Senders: 8, PerSend: per, ExactOnce: true,
+			Pipes: []pipeSpec{{Type: "t1", Kinds: k(kJSON, kFileRotTS), Insts: []int{0, 0}}}},
+		{Name: "filesink-rotate-on-rotate-stamp-keepall", Senders: 6, PerSend: per, ExactOnce: true, Controls: []string{"broker-reopen"},
+			Pipes: []pipeSpec{{Type: "t1", Kinds: k(kJSON, kFileRotTSKeep), Insts: []int{0, 0}}, {Type: "t2", Kinds: k(kFilter, kJSON, kFileRotTSKeep), Insts: []int{0, 0, 0}}}},
+		{Name: "filesink-rotate-stamped", Senders: 6, PerSend: per, ExactOnce: true, Controls: []string{"file-reopen"},
+			Pipes: []pipeSpec{{Type: "t1", Kinds: k(kJSON, kFileRotStamped), Insts: []int{0, 0}}}},
 		// one writer sink and one channel sink under 8 senders, two formatters for one type
 		{Name: "sinks-shared", Senders: 8, PerSend: per, Controls: []string{"thresholds", "broker-reopen"},
 			Pipes: []pipeSpec{{Type: "t1", Kinds: k(kJSON, kWriter), Insts: []int{0, 0}}, {Type: "t1", Kinds: k(kJSONFF, kWriter), Insts: []int{0, 0}}, {Type: "t1", Kinds: k(kCEJ, kChan), Insts: []int{0, 0}}}},
